@@ -267,3 +267,41 @@ M("C15", "ips-slice-can-be-zero", WR, "slice_size = min(0xFFFF, len(block) - k)"
 M("C15", "shunting-yard-peek-instead-of-pop", EXPRF, "            while len(operator_stack) > lparen_index + 1:\n                op = operator_stack.pop()", "            while len(operator_stack) > lparen_index + 1:\n                op = operator_stack[-1]", "C15.R1")
 M("C15", "scope-reparented", SYM, "        if self.current_scope.parent is not None:\n            self.current_scope = self.current_scope.parent", "        if self.current_scope.parent is not None:\n            self.current_scope.parent.parent = self.current_scope.parent.parent\n            self.current_scope = self.current_scope.parent", "C15.R4")
 M("C15", "expr-list-comma-loop", PST, "        if accept_tokens(p.current(), [TokenType.COMMA]):\n            p.next()\n        else:\n            break\n\n    return expressions", "        if accept_tokens(p.current(), [TokenType.COMMA, TokenType.EOF]):\n            p.next()\n        else:\n            break\n\n    return expressions", "C15.R", neutral=True)
+
+# ------------------------------------------------------------------ C12
+CLI = "a816/cli.py"
+M("C12", "revert-sfc-ignores-mapping", CLI, "exit_code = program.assemble(args.input_file, args.output_file, args.mapping)", "exit_code = program.assemble(args.input_file, args.output_file)", "C12.R1")
+M("C12", "copier-header-dropped", CLI, "args.input_file, args.output_file, args.mapping, args.copier_header)", "args.input_file, args.output_file, args.mapping)", "C12.R1")
+M("C12", "high-maps-to-low", PROG, '"high": RomType.high_rom,', '"high": RomType.low_rom,', "C12.R2")
+M("C12", "revert-low2-bus", SYM, "BUS_MAPPING = {RomType.low_rom: low_rom_bus, RomType.low_rom_2: low_rom_2_bus, RomType.high_rom: high_rom_bus}", "BUS_MAPPING = {RomType.low_rom: low_rom_bus, RomType.high_rom: high_rom_bus}", "C12.R2")
+M("C12", "revert-define-string", CLI, "add_symbol(key, eval_expression_str(value, program.resolver))", "add_symbol(key, value)", "C12.R3")
+M("C12", "sfc-no-seek", WR, "        self.file.seek(block_address)\n        self.file.write(block)", "        self.file.write(block)", "C12.R4")
+M("C12", "ips-end-before-assembly", PROG, "            ips_emitter.begin()\n            exit_code = self.assemble_with_emitter(asm_file, ips_emitter)\n            ips_emitter.end()", "            ips_emitter.begin()\n            ips_emitter.end()\n            exit_code = self.assemble_with_emitter(asm_file, ips_emitter)", "C12.R4")
+M("C12", "labels-skip-named-scopes", SYM, "            if not isinstance(scope, InternalScope):\n                labels += scope.get_labels()", "            if not isinstance(scope, (InternalScope, NamedScope)):\n                labels += scope.get_labels()", "C12.R5")
+M("C12", "symbol-bank-unshifted", PROG, "bank = value >> 16 & 0xFF", "bank = value >> 8 & 0xFF", "C12.R5")
+M("C12", "mapping-applied-after", PROG, "        self.set_mapping(mapping)\n        with open(sfc_file, \"wb\") as f:\n            sfc_emitter = SFCWriter(f)\n            return self.assemble_with_emitter(asm_file, sfc_emitter)",
+  "        with open(sfc_file, \"wb\") as f:\n            sfc_emitter = SFCWriter(f)\n            status = self.assemble_with_emitter(asm_file, sfc_emitter)\n        self.set_mapping(mapping)\n        return status", "C12.R1")
+M("C12", "patch-written-text-mode", PROG, '        with open(ips_file, "wb") as f:', '        with open(ips_file, "w") as f:', "C12.R4")
+
+# ------------------------------------------------------------------ C16
+M("C16", "revert-inner-index-fold", PST, "inner_index = p.current().value.lower()", "inner_index = p.current().value", "C16.R1")
+M("C16", "size-not-folded", PST, "size = p.current().value.lower()", "size = p.current().value", "C16.R1")
+M("C16", "outer-index-not-folded", PST, "index = index_token.value.lower()", "index = index_token.value", "C16.R1")
+M("C16", "opcode-node-no-lower", NODES, "self.opcode = opcode.lower()", "self.opcode = opcode", "C16.R1")
+M("C16", "index-lowercase-only", SST, 'if s.accept("xXyYsS"):', 'if s.accept("xys"):', "C16.R1")
+M("C16", "decl-keeps-comments", PST, "    if accept_token(current_token, TokenType.COMMENT):\n        return None\n    elif accept_token(current_token, TokenType.DOUBLE_LBRACE):", "    if accept_token(current_token, TokenType.DOUBLE_LBRACE):", "C16.R2")
+M("C16", "no-tab-skip", SST, 's.ignore_run(" \\t\\n")', 's.ignore_run(" \\n")', "C16.R2")
+M("C16", "include-opens-scope", PST, "        return BlockAstNode(sub_ast, keyword)", "        return CompoundAstNode(sub_ast, keyword)", "C16.R3")
+M("C16", "expression-no-space-skip", SST, "    while s.pos < len(s.input):\n        s.ignore_run(\" \")\n        if s.accept(\"0123456789\"):", "    while s.pos < len(s.input):\n        if s.accept(\"0123456789\"):", "C16.R2")
+
+# ------------------------------------------------------------------ C17
+M("C17", "revert-string-position", SST, "            raise ScannerException(\"Unterminated String\", position)", "            raise ScannerException(\"Unterminated String\", s.get_position())", "C17.R2")
+M("C17", "revert-size-position", SST, "        position = s.get_position()\n        s.next()\n        raise ScannerException(\"Invalid Size Specifier\", position)", "        s.next()\n        raise ScannerException(\"Invalid Size Specifier\", s.get_position())", "C17.R2")
+M("C17", "revert-comment-position", SST, "                raise ScannerException(\"Unterminated Comment\", position)", "                raise ScannerException(\"Unterminated Comment\", s.get_position())", "C17.R2")
+M("C17", "nodeerror-without-location", CG, '        raise NodeError(f"{node.symbol} is not a code block ({value})", file_info)', '        raise NodeError(f"{node.symbol} is not a code block ({value})", None)  # type: ignore', "C17.R1")
+M("C17", "opcode-ast-uses-current-token", PST, "        index=index or inner_index,\n        file_info=opcode,", "        index=index or inner_index,\n        file_info=p.current(),", "C17.R1")
+M("C17", "generator-gets-first-node-token", CG, "        file_info = _get_file_info(node)\n", "        file_info = _get_file_info(ast_nodes[0])\n", "C17.R1")
+M("C17", "include-scanned-under-parent-name", PST, "            tokens = scanner.scan(filename, source)", "            tokens = scanner.scan(keyword.position.file.filename if keyword.position else filename, source)", "C17.R1")
+M("C17", "nodeerror-omits-line-text", NODES, '{self.file_info.position.file.filename}:{self.file_info.position.line} {self.file_info.position.get_line()}"', '{self.file_info.position.file.filename}:{self.file_info.position.line}"', "C17.R1")
+M("C17", "handle-line-from-accept-prefix", SCN, "            self.pos += len(prefix)\n            return True", "            self.pos += len(prefix)\n            self._handle_line()\n            return True", "C17.R3")
+M("C17", "data-node-uses-late-token", PST, '        return DataNode("db", expressions, keyword)', '        return DataNode("db", expressions, p.current())', "C17.R1")
